@@ -29,7 +29,7 @@ if not ok:
 ok, out = ck.coq_make(["Model/C01_IRSem.vo", "Model/C01_Syntax.vo", "Model/C01_Check.vo", "Model/C01_SSA.vo"])
 if not ok:
     bail("coq-model-broken", "Coq model of C01 does not compile", out)
-ok, out = ck.coq_make(["Proofs/C01.vo", "Examples/C01.vo"], timeout=2400)
+ok, out = ck.coq_make(["Proofs/C01.vo", "Proofs/C01_SSA.vo", "Examples/C01.vo"], timeout=2400)
 if not ok:
     broken.append(("coq-make", out[-3000:]))
 else:
